@@ -23,7 +23,7 @@ ASSUMPTIONS = ["like-for-like comparison: history and fresh interpreter use the 
 CASE_TIMEOUT = {"quick": 400, "thorough": 600}
 WATCHDOG = {"quick": 1500, "thorough": 6000}
 
-BOOL1 = ["cmp", "cmp3", "xorbits", "balanced", "const", "oracle_named", "shadow_reduce", "named_t"]
+BOOL1 = ["cmp", "cmp3", "xorbits", "balanced", "const", "oracle_named", "shadow_reduce", "named_t", "swap_ab", "swap_ba", "swap_int_ab", "swap_int_ba"]
 ANY = list(O.SOURCES)
 
 
@@ -178,6 +178,10 @@ CORPUS = [
     [["compile_types", "ct_low", "q10"], ["compile_types", "ct_bad", "q10"], ["compile_types", "ct_low", "none"], ["compile_types", "ct_low", "q10"]],
     [["compile_types", "ct_narrow_bad", "narrow5"], ["compile_types", "ct_narrow", "narrow3"], ["compile_types", "ct_narrow", "none"], ["compile_types", "ct_narrow", "narrow5"]],
     [["compile_types", "ct_narrow", "narrow5"], ["compile_types", "ct_narrow", "narrow3"], ["compile", "cmp", True, "default", True], ["compile_types", "ct_low", "both"], ["compile_types", "ct_bad", "both"], ["compile_types", "ct_narrow", "none"]],
+    # same name / expressions / width, different argument order: the second compilation must not reuse the first one's circuit
+    [["compile", "swap_ab", True, "default", True], ["compile", "swap_ba", True, "default", True], ["truth_table", 1], ["compile", "swap_ab", True, "default", True]],
+    [["compile", "swap_cab", True, "default", True], ["compile", "swap_abc", True, "default", True], ["grover", 1, None], ["compile", "swap_cab", True, "fast", True]],
+    [["compile", "swap_int_ba", True, "default", True], ["compile", "swap_int_ab", True, "default", True], ["export", 1, "qasm", "circuit"], ["compile", "swap_int_ba", True, "default", False]],
     [["compile_callable", "cmp", "default", False], ["compile", "cmp", True, "default", True], ["compile_callable", "cmp", "default", True], ["grover", 0, None], ["export", 2, "qasm", "circuit"]],
     [["compile_callable", "add", "default", True], ["compile_callable", "tuple", "default", False], ["truth_table", 0], ["decompile", 1]],
     [["compile", "inc", True, "default", True], ["defs", "param_caller", 0], ["bind", 1, {"c": 1}], ["bind", 1, {"c": 2}], ["bind", 1, {"c": 1}], ["truth_table", 3]],
